@@ -8,6 +8,152 @@ package schema
 // stream.go — streams (C08, C19)
 // ---------------------------------------------------------------------------------------------------
 
+//@ func (*arrayReader).recv
+//@   props C08
+//@   requires ar != nil && 0 <= ar.index
+//@   modifies ar.index
+//@   ensures[next_item] @C08 old(ar.index) < len(ar.arr) ==> result1 == nil && result0 == ar.arr[old(ar.index)] && ar.index == old(ar.index) + 1
+//@   ensures[end] @C08 old(ar.index) >= len(ar.arr) ==> result1 == io.EOF && ar.index == old(ar.index)
+
+//@ func (*arrayReader).copy
+//@   props C08
+//@   requires ar != nil && n >= 0
+//@   modifies fresh()
+//@   ensures[copies] @C08 len(result) == n && fresh(result) && forall(i int :: 0 <= i && i < n ==> result[i] != nil && fresh(result[i]) && result[i].arr == ar.arr && result[i].index == ar.index)
+//@   ensures[independent] @C08 forall(i int, j int :: 0 <= i && i < j && j < n ==> result[i] != result[j])
+//@   loop 1:
+//@     modifies fresh()
+//@     invariant[ret] len(ret) == n && fresh(ret) && 0 <= i
+//@     invariant[copies] forall(k int :: 0 <= k && k < i ==> ret[k] != nil && fresh(ret[k]) && ret[k].arr == ar.arr && ret[k].index == ar.index)
+//@     invariant[independent] forall(k int, j int :: 0 <= k && k < j && j < i ==> ret[k] != ret[j])
+
+//@ func (*streamReaderWithConvert).recv
+//@   props C08
+//@   requires srw != nil && srw.sr != nil && srw.convert != nil
+//@   ghost consumed int = 0
+//@   ghost converted int = 0
+//@   ghost lastErr error = nil
+//@   ghost cv any = nil
+//@   ghost ce error = nil
+//@   after call srw.sr.recvAny: ghost consumed++
+//@   after call srw.sr.recvAny: ghost lastErr = result1
+//@   after call srw.convert: ghost converted++
+//@   after call srw.convert: ghost cv = result0
+//@   after call srw.convert: ghost ce = result1
+//@   ensures[source_error_passed] @C08 lastErr != nil ==> result1 == lastErr && converted == consumed - 1
+//@   ensures[converted_item] @C08 lastErr == nil ==> converted == consumed && box(result0) == cv && result1 == ce && !(ce != nil && errorsIs(ce, ErrNoValue))
+//@   ensures[consumed_some] consumed >= 1
+//@   loop 1:
+//@     invariant[skipped_only_no_value] @C08 consumed == converted && consumed >= 0 && (consumed > 0 ==> ce != nil && errorsIs(ce, ErrNoValue))
+
+//@ func (*stream).send
+//@   trusted one-writer/one-reader channel pair (ghost): blocks until the item is buffered or the reader closed; returns true iff the reader has closed (C08 interleavings are not decided)
+//@   requires s != nil
+//@   modifies nothing()
+//@ func (*stream).closeSend
+//@   trusted closes the item channel: the reader sees end-of-stream after the buffered items
+//@   requires s != nil
+//@   modifies nothing()
+//@ func (*stream).closeRecv
+//@   trusted closes the closed-signal channel: the writer's next send reports closed
+//@   requires s != nil
+//@   modifies nothing()
+//@ func newStream
+//@   trusted allocates the two channels
+//@   ensures[fresh] result != nil && fresh(result)
+
+//@ func (*streamReaderWithConvert).toStream$1
+//@   props C08 C19 C13
+//@   requires srw != nil && srw.sr != nil && srw.convert != nil && ret != nil
+//@   ghost got int = 0
+//@   ghost sent int = 0
+//@   ghost closedSend int = 0
+//@   ghost closedSrc int = 0
+//@   after call srw.recv: ghost got = got + (result1 == io.EOF ? 0 : 1)
+//@   at call ret.send: ghost sent++
+//@   at call ret.closeSend: ghost closedSend++
+//@   at call srw.close: ghost closedSrc++
+//@   ensures[every_item_forwarded] @C08,C13 sent == got
+//@   ensures[writer_closed_once] @C08 closedSend == 1
+//@   ensures[source_closed_once] @C19 closedSrc == 1
+//@   loop 1:
+//@     invariant[forwarded_so_far] sent == got && closedSend == 0 && closedSrc == 0
+
+//@ func (*childStreamReader).toStream$1
+//@   props C08 C19 C13
+//@   requires csr != nil && csr.parent != nil && ret != nil
+//@   ghost got int = 0
+//@   ghost sent int = 0
+//@   ghost closedSend int = 0
+//@   ghost closedSrc int = 0
+//@   after call csr.recv: ghost got = got + (result1 == io.EOF ? 0 : 1)
+//@   at call ret.send: ghost sent++
+//@   at call ret.closeSend: ghost closedSend++
+//@   at call csr.close: ghost closedSrc++
+//@   ensures[every_item_forwarded] @C08,C13 sent == got
+//@   ensures[writer_closed_once] @C08 closedSend == 1
+//@   ensures[source_closed_once] @C19 closedSrc == 1
+//@   loop 1:
+//@     invariant[forwarded_so_far] sent == got && closedSend == 0 && closedSrc == 0
+
+//@ func (*StreamReader).Recv
+//@   trusted dispatches on the reader kind to the channel / array / merged / converted / child reader; used here only as the abstract source of a copied stream
+//@   requires sr != nil
+//@   modifies nothing()
+//@ func (*StreamReader).Close
+//@   trusted dispatches on the reader kind
+//@   requires sr != nil
+//@   modifies nothing()
+
+//@ spec filled(e *cpStreamElement) bool = done(e.once)
+//@ spec listOK() bool = forall(e *cpStreamElement :: e != nil && filled(e) && e.item.err != io.EOF ==> e.next != nil)
+//@ spec parentOK(p *parentStreamReader) bool = p != nil && p.sr != nil
+
+//@ func (*parentStreamReader).peek
+//@   props C08
+//@   requires parentOK(p) && 0 <= idx && idx < len(p.subStreamList)
+//@   requires[list] listOK()
+//@   modifies p.subStreamList[idx], when(p.subStreamList[idx] != nil && !filled(p.subStreamList[idx]), fields(p.subStreamList[idx]), once(p.subStreamList[idx].once)), fresh()
+//@   ghost srcReads int = 0
+//@   at call p.sr.Recv: ghost srcReads++
+//@   ensures[list] listOK()
+//@   ensures[closed_child] @C08 old(p.subStreamList[idx]) == nil ==> err == ErrRecvAfterClosed && srcReads == 0 && p.subStreamList[idx] == nil
+//@   ensures[item_of_cursor] @C08 old(p.subStreamList[idx]) != nil ==> filled(old(p.subStreamList[idx])) && box(t) == box(old(p.subStreamList[idx]).item.chunk) && err == old(p.subStreamList[idx]).item.err
+//@   ensures[cursor_advances] @C08 old(p.subStreamList[idx]) != nil ==> p.subStreamList[idx] == (err != io.EOF ? old(p.subStreamList[idx]).next : old(p.subStreamList[idx]))
+//@   ensures[source_read_once_per_element] @C08 old(p.subStreamList[idx]) != nil ==> srcReads == (old(filled(p.subStreamList[idx])) ? 0 : 1)
+//@   ensures[filled_elements_immutable] @C08 forall(e *cpStreamElement :: e != nil && !fresh(e) && old(filled(e)) ==> filled(e) && e.next == old(e.next) && e.item.err == old(e.item.err) && box(e.item.chunk) == old(box(e.item.chunk)))
+//@   ensures[other_cursors_kept] @C08 forall(j int :: 0 <= j && j < len(p.subStreamList) && j != idx ==> p.subStreamList[j] == old(p.subStreamList[j]))
+
+//@ func (*parentStreamReader).close
+//@   props C08 C19
+//@   requires parentOK(p) && 0 <= idx && idx < len(p.subStreamList)
+//@   modifies p.subStreamList[idx], p.closedNum
+//@   ghost srcCloses int = 0
+//@   at call p.sr.Close: ghost srcCloses++
+//@   ensures[idempotent] @C08 old(p.subStreamList[idx]) == nil ==> p.closedNum == old(p.closedNum) && srcCloses == 0
+//@   ensures[counted_once] @C08 old(p.subStreamList[idx]) != nil ==> p.subStreamList[idx] == nil && p.closedNum == old(p.closedNum) + 1
+//@   ensures[source_closed_by_last] @C19 srcCloses == (old(p.subStreamList[idx]) != nil && old(p.closedNum) + 1 == len(p.subStreamList) ? 1 : 0)
+//@   ensures[other_cursors_kept] forall(j int :: 0 <= j && j < len(p.subStreamList) && j != idx ==> p.subStreamList[j] == old(p.subStreamList[j]))
+
+//@ func copyStreamReaders
+//@   props C08
+//@   requires sr != nil && n >= 0
+//@   modifies fresh()
+//@   ensures[children] @C08 len(result) == n && fresh(result) && forall(i int :: 0 <= i && i < n ==> result[i] != nil && fresh(result[i]) && result[i].typ == readerTypeChild && result[i].csr != nil && result[i].csr.index == i && result[i].csr.parent != nil)
+//@   ensures[one_parent] @C08 forall(i int :: 0 <= i && i < n ==> result[i].csr.parent == result[0].csr.parent && result[i].csr.parent.sr == sr && result[i].csr.parent.closedNum == 0 && len(result[i].csr.parent.subStreamList) == n)
+//@   ensures[same_start] @C08 forall(i int :: 0 <= i && i < n ==> result[0].csr.parent.subStreamList[i] == result[0].csr.parent.subStreamList[0] && result[0].csr.parent.subStreamList[i] != nil && !filled(result[0].csr.parent.subStreamList[i]))
+//@   loop 1:
+//@     modifies fresh()
+//@     invariant[cursors] fresh(cpsr) && cpsr.sr == sr && cpsr.closedNum == 0 && len(cpsr.subStreamList) == n && fresh(elem) && elem != nil && !filled(elem) && forall(k int :: 0 <= k && k < $i ==> cpsr.subStreamList[k] == elem)
+//@   loop 2:
+//@     modifies fresh()
+//@     invariant[cursors] fresh(cpsr) && cpsr.sr == sr && cpsr.closedNum == 0 && len(cpsr.subStreamList) == n && fresh(elem) && elem != nil && !filled(elem) && forall(k int :: 0 <= k && k < n ==> cpsr.subStreamList[k] == elem)
+//@     invariant[ret] len(ret) == n && fresh(ret)
+//@     invariant[children_a] forall(k int :: 0 <= k && k < $i ==> ret[k] != nil && fresh(ret[k]) && ret[k].typ == readerTypeChild)
+//@     invariant[children_b] forall(k int :: 0 <= k && k < $i ==> ret[k].csr != nil && fresh(ret[k].csr))
+//@     invariant[children_c] forall(k int :: 0 <= k && k < $i ==> ret[k].csr.index == k)
+//@     invariant[children_d] forall(k int :: 0 <= k && k < $i ==> ret[k].csr.parent == cpsr)
+
 //@ func (*StreamReader).Copy
 //@   props C08
 //@   trusted pending the C08 pass over schema/stream.go
